@@ -150,6 +150,20 @@ def group_history_spec():
     )
 
 
+def multiedge_history_spec():
+    """Histories about nodes joined by more than one port pair (a 1:2 splitter feeding both inputs of a 2:1 merger, straight
+    or crossed) being traced and copied."""
+    fixed = [{'k': 'w', 'st': False, 'i': 1, 'o': 2}, {'k': 'w', 'st': False, 'i': 2, 'o': 1}]
+    kinds = ['subscribe', 'subscribe', 'subscribe', 'segment', 'segment', 'copy', 'copy', 'retry']
+    return st.fixed_dictionaries(
+        {
+            'nodes': st.lists(node_spec(futures=0.2), min_size=0, max_size=2).map(lambda extra: fixed + extra),
+            'ops': st.lists(op_spec(kinds), min_size=4, max_size=10),
+            'clean': st.just(False),
+        }
+    )
+
+
 @st.composite
 def perm_spec(draw, all_orders: bool):
     """A wiring of workers through placeholders drawn constructively so that most call sets are entirely legal."""
@@ -587,6 +601,7 @@ def campaigns(ctx):
         Campaign('clean', history_spec(True), check_history, 2200, 10000),
         Campaign('perm', perm_spec(thorough), check_perm, 500, 300),
         Campaign('groups', group_history_spec(), check_history, 600, 4000),
+        Campaign('multiedge', multiedge_history_spec(), check_history, 600, 4000),
     ]
 
 
